@@ -682,6 +682,9 @@ pub fn c15_case(env: &CabiEnv, data: &[u8], st: &mut Stats) -> PResult {
     };
     let ctrace = env.driver.run(&env.table, &mut pp_c, &script.bytes);
     ensure!(env.table.abi_version == env.driver.header_abi, "C15 abi-version-differs-from-header", "table {} header {}", env.table.abi_version, env.driver.header_abi);
+    if std::env::var("VERIF_DEBUG_TRACES").is_ok() {
+        eprintln!("--- C trace\n{}\n--- native trace\n{}", ctrace, native);
+    }
     if ctrace != native {
         // first differing line
         let (mut ln, mut a, mut b) = (0, "", "");
